@@ -286,6 +286,16 @@ pub fn rec_scan(a: &Args, out: &mut Out) {
                 b.resize(total, 0x33);
             }
             (b, vec!["large"])
+        } else if k == 48 || k == 145 {
+            // tens of thousands of complete-but-invalid candidates back to back, then a real frame: the scanner has to
+            // reject every one of them (and may not need stack or time that grows with their number, see scan_obs_small_stack)
+            let pat: &[u8] = if k == 48 { &[0xD3, 0x00, 0x00] } else { &[0xD3, 0x00, 0x01, 0x55] };
+            let mut b: Vec<u8> = vec![];
+            for _ in 0..40_000 {
+                b.extend_from_slice(pat);
+            }
+            b.extend(random_frame(&mut r, &nums));
+            (b, vec!["dense"])
         } else if k % 6 == 5 {
             let len = r.gen_range(0..600);
             ((0..len).map(|_| if r.gen_range(0..8) == 0 { 0xD3 } else { r.gen() }).collect(), vec!["random"])
@@ -297,7 +307,7 @@ pub fn rec_scan(a: &Args, out: &mut Out) {
         let mut calls = 0;
         loop {
             let rest = &buf[base..];
-            let mut o = scan_obs(rest);
+            let mut o = if tags.contains(&"dense") { scan_obs_small_stack(rest) } else { scan_obs(rest) };
             let consumed = o["consumed"].as_i64().unwrap_or(-1);
             let got = o["at"].as_i64().unwrap_or(-1) >= 0;
             o["ev"] = json!("Scan");
@@ -318,6 +328,18 @@ pub fn rec_scan(a: &Args, out: &mut Out) {
         // the iterator on the whole buffer
         out.emit(iter_obs(&buf));
     }
+}
+
+/// scan_obs on a thread with a 1 MiB stack (half of Rust's default for spawned threads): scanning is iterative, its stack
+/// need does not depend on the input; a scanner that recurses per rejected candidate dies here (process abort = crash event)
+pub fn scan_obs_small_stack(buf: &[u8]) -> J {
+    let data = buf.to_vec();
+    std::thread::Builder::new()
+        .stack_size(1 << 20)
+        .spawn(move || scan_obs(&data))
+        .expect("spawn")
+        .join()
+        .unwrap_or_else(|_| json!({"consumed": -1, "at": -1, "panic": "scanner thread panicked"}))
 }
 
 /// one MsgFrameIter run on `buf` (+ three extra next() calls), as an Iter event
